@@ -157,6 +157,27 @@ func zzCheckMsg(tag string, n int, msg *wire.MsgMerkleBlock, idx []uint32, hdr w
 	}
 }
 
+// zzNativeFilter: inside the engine Filter.MatchTxAndUpdate is a stub that answers with the chosen
+// subset; natively a real filter holding exactly the chosen transaction ids plays that role (nil if
+// a false positive makes it answer differently from the chosen subset).
+func zzNativeFilter(block *bchutil.Block, n int) *bloom.Filter {
+	if vSymbolic() {
+		return bloom.LoadFilter(nil)
+	}
+	f := bloom.NewFilter(uint32(n)+1, 0, 0.0000001, wire.BloomUpdateNone)
+	for i := 0; i < n; i++ {
+		if zzMatched[i] {
+			f.AddHash(zzLeaf[i])
+		}
+	}
+	for i, tx := range block.Transactions() {
+		if f.MatchTxAndUpdate(tx) != zzMatched[i] {
+			return nil
+		}
+	}
+	return f
+}
+
 // ZZ_C11_build: the three builders on every subset of an n-transaction block.
 func ZZ_C11_build() {
 	n := vCase("ntx", vParam("minn", 1), vParam("maxn", 4))
@@ -178,16 +199,18 @@ func ZZ_C11_build() {
 		msg, idx := NewMerkleBlockWithTxnSet(block, set)
 		zzCheckMsg("txnset", n, msg, idx, hdr)
 	case 1:
-		if !vSymbolic() {
-			return // the filter stub exists only inside the engine
-		}
-		msg, idx := NewMerkleBlockWithFilter(block, bloom.LoadFilter(nil))
-		zzCheckMsg("withfilter", n, msg, idx, hdr)
-	case 2:
-		if !vSymbolic() {
+		f := zzNativeFilter(block, n)
+		if f == nil {
 			return
 		}
-		msg, idx := bloom.NewMerkleBlock(block, bloom.LoadFilter(nil))
+		msg, idx := NewMerkleBlockWithFilter(block, f)
+		zzCheckMsg("withfilter", n, msg, idx, hdr)
+	case 2:
+		f := zzNativeFilter(block, n)
+		if f == nil {
+			return
+		}
+		msg, idx := bloom.NewMerkleBlock(block, f)
 		zzCheckMsg("bloom", n, msg, idx, hdr)
 	}
 	vReach("end")
